@@ -3,6 +3,7 @@
 #ifndef VF_CJSON_TU_H
 #define VF_CJSON_TU_H
 #include "models.h"
+#include "preds.h"
 #define malloc vf_libc_malloc
 #define free vf_libc_free
 #define realloc vf_libc_realloc
@@ -10,6 +11,5 @@
 #undef malloc
 #undef free
 #undef realloc
-#include "preds.h"
 #include "contracts_cjson.h"
 #endif
